@@ -227,8 +227,13 @@ pub fn roundtrip_case(rng: &mut Rng, ctx: &mut Ctx, all_cuts: bool) {
     if n_data > 1 {
         ctx.count("enc.multi_frame");
     }
-    if yt > 0 && n_data >= 2 && src_class == 0 {
+    if yt > 0 && src_class == 0 && sizes.len() >= 2 && wire.len() > yt {
+        // the workload crosses the yield threshold with an always-ready source (whether and where
+        // the encoder then flushes is its own business)
         ctx.count("enc.yield_flush");
+    }
+    if n_data >= 2 {
+        ctx.count("observed.multi_data_frame_bodies");
     }
     if src_class != 0 && sizes.len() >= 2 {
         ctx.count("src.pending_between_ready");
@@ -257,7 +262,8 @@ pub fn roundtrip_case(rng: &mut Rng, ctx: &mut Ctx, all_cuts: bool) {
             if rng.bool() {
                 w.extend(ref_frame(0, p));
             } else {
-                w.extend(ref_frame(1, &f.payload));
+                // as the encoder sent it (flag 1, or flag 0 if it chose not to compress this one)
+                w.extend(ref_frame(f.flag, &f.payload));
             }
         }
         ctx.count("dec.mixed_flags_under_compression");
